@@ -371,10 +371,14 @@ func genC14(r *rand.Rand, tier string, env *Env) []Case {
 				default:
 					// the same version in the other letter case, same year: still another version
 					pv := string(args[len(args)-2])
+					lead := ""
+					if strings.HasPrefix(pv, "v") {
+						lead, pv = "v", pv[1:] // the prefix is not part of the version: `V4.5.0` is no version
+					}
 					if up := strings.ToUpper(pv); up != pv {
-						v = up
+						v = lead + up
 					} else {
-						v = strings.ToLower(pv)
+						v = lead + strings.ToLower(pv)
 					}
 					y = string(args[len(args)-1])
 				}
